@@ -122,6 +122,10 @@ func genC01(seed uint64, run int, tier string) Scenario {
 			cmd += " " + word(r, lower+digits, 40, 120) // long input: larger than half a small search depth
 		}
 		cmd = strings.Join(strings.Fields(cmd), " ")
+		if r.IntN(8) == 0 {
+			// a command line with blanks at its edges is sent as it is
+			cmd = pick(r, cmd+" ", cmd+"  ", " "+cmd, "  "+cmd+" ")
+		}
 		if r.IntN(6) == 0 {
 			// an output line that mentions the prompt text in its middle (after a blank, so that no
 			// prefix of the output looks like a prompt)
@@ -177,6 +181,13 @@ func genC01(seed uint64, run int, tier string) Scenario {
 	}
 	if !sc.Exact && r.IntN(4) == 0 {
 		sc.Wrap = pick(r, 16, 20, 40, 80)
+	}
+	if sc.NoisePct > 0 || sc.Wrap > 0 {
+		// fuzzy matching cannot tell a blank at the end of the command from a blank of the bytes
+		// the terminal interleaves: trailing blanks only with a clean echo
+		for i := range sc.Cmds {
+			sc.Cmds[i].Cmd = strings.TrimRight(sc.Cmds[i].Cmd, " ")
+		}
 	}
 	sc.Net = genNet(r, rd, kernel.Stream(rs, "netseed").Uint64())
 	if !sc.Network && r.IntN(16) == 0 {
